@@ -64,13 +64,13 @@ def rand_schedule(rng):
     return steps
 
 
-KINDS = ["schedule", "twice", "after_others", "simulate", "resim", "reused", "noseed", "poll_reused", "edit_resim", "refused_other", "outsys_resim"]
+KINDS = ["schedule", "twice", "after_others", "simulate", "resim", "reused", "noseed", "poll_reused", "edit_resim", "refused_other", "outsys_resim", "units_reuse"]
 
 
 def run(ctx):
     rng = ctx.rng
     n = ctx.n(25, 300)
-    nsched = ctx.n(11, 30)
+    nsched = ctx.n(12, 30)
     entries = []
     for i in range(n):
         option = lc.OPTIONS[i % 3]
@@ -137,6 +137,15 @@ def run(ctx):
         S["kw"]["units_system"] = {"space": rng.choice(["nm", "mm", "dm"]), "time": rng.choice(["ms", "min", "µs"]), "quantity": rng.choice(["mol", "µmol", "nmol"])}
         S["kw"].pop("__from_dict__", None)
         entries.append({"S": S, "info": info, "option": "euler", "eng": "euler", "idx": n + 400 + b, "conv3": True})
+    # Euler decay followed into the SUBNORMAL range (k dt = 0.1, > 6900 steps): run()-driven vs iterate()-driven, bit for bit
+    for b in range(1):
+        sysd = {"network": {"species": [{"label": "A", "density": 0, "D": 0}, {"label": "B", "density": 0, "D": 0}],
+                            "reactions": [{"eq": "A -> B", "k+": 1.0}], "environments": ["a"]},
+                "space": {"type": "grid", "w": 1, "h": 1, "d": 1, "cell_volume": 1.0, "cell_env": [0], "boundary_conditions": {}}, "state": [1.0, 0.0]}
+        S = {"system": sysd, "kw": {"t_sample": [0.0], "time_step": 0.1, "t_max": 0.1 * rng.randint(7150, 7400), "sampling_policy": "on_iteration",
+                                    "rng_seed": 1, "init_state_processing": "none"}}
+        info = {"option": "euler", "policy": "on_iteration", "space": "grid", "nsp": 2, "n": 1, "mode": "none", "subnormal": True}
+        entries.append({"S": S, "info": info, "option": "euler", "eng": "euler", "idx": n + 500 + b, "subnormal": True})
     # parameters with more than 6 significant digits (15-17), for the persistence routes (dict / file / trajectory.script)
     for b in range(ctx.n(4, 16)):
         option = lc.OPTIONS[b % 3]
@@ -165,7 +174,7 @@ def run(ctx):
     for e in entries:
         jobs.append({"id": "ref%d" % e["idx"], "engines": [e["eng"]], "scripts": [e["S"]], "timeout": 20,
                      "calls": [{"obj": 0, "call": "setup", "script": 0, "peek": True},
-                               {"obj": 0, "call": "drive", "max": 3000, "state": False, "size": 0, "samples": [], "past_end": 0},
+                               {"obj": 0, "call": "drive", "max": 3000 if not e.get("subnormal") else 9000, "state": False, "size": 0, "samples": [], "past_end": 0},
                                {"obj": 0, "call": "get_output", "full": True}, {"obj": 0, "call": "finalize"}]})
     res = lc.run_jobs(jobs, kind="plain", chunk=1, parallel=ctx.n(8, 8), stall=ctx.n(10, 30))
     good = []
@@ -200,6 +209,8 @@ def run(ctx):
         others = [o for o in good if o is not e]
         for v in range(nsched):
             kind = KINDS[v] if v < len(KINDS) else rng.choice(["schedule", "after_others", "reused", "simulate", "twice", "poll_reused", "edit_resim"])
+            if e.get("subnormal"):
+                kind = "schedule"
             if e.get("digits"):
                 kind = ["persist:dict", "persist:file", "persist:traj_dict", "persist:traj_file", "noseed", "schedule"][v % 6]
             if e.get("bigmean"):
@@ -209,6 +220,8 @@ def run(ctx):
             sched = rand_schedule(rng)
             if rng.random() < 0.5:
                 sched.append(["iterate_n", rng.choice([64, 1000])])      # repeated until completion: overshoots the completing step
+            if e.get("subnormal"):
+                sched = [[["run", 1]], [["run", 0]], [["run", 5]], [["iterate_n", 997]], [["run", 1], ["iterate_n", 5000], ["run", 2]]][v % 5]
             main_obj = 0
             if kind in ("after_others", "reused") and others:
                 # earlier simulations of other scripts (other sizes, policies; possibly another engine kind on another object)
@@ -245,6 +258,26 @@ def run(ctx):
                           {"obj": 0, "call": "setup", "script": 0, "peek": True},
                           {"obj": 0, "call": "poll", "how": how, "step": step, "max": 100000},
                           {"obj": 0, "call": "get_output", "full": True}, {"obj": 0, "call": "finalize"}]
+            elif kind == "units_reuse":
+                # ONE engine object runs the script, then the same script (same network) under another script units system; the
+                # second run equals the run of that second script on a fresh engine object
+                S5 = json.loads(json.dumps(e["S"]))
+                if "units_system" in S5["kw"]:
+                    us = dict(S5["kw"]["units_system"])
+                    us["time"] = "ms" if us.get("time") != "ms" else "min"
+                    us["space"] = "nm" if us.get("space") != "nm" else "µm"
+                else:
+                    us = {"time": "ms", "space": "nm", "quantity": "molecule"}
+                S5["kw"]["units_system"] = us
+                S5["kw"].pop("__from_dict__", None)
+                scripts.append(S5)
+                engines.append(e["eng"])
+                one = [["iterate_n", 100000]]
+                calls += [{"obj": 0, "call": "setup", "script": 0}, {"obj": 0, "call": "schedule", "steps": sched, "max": 100000}, {"obj": 0, "call": "finalize"},
+                          {"obj": 0, "call": "setup", "script": 1}, {"obj": 0, "call": "schedule", "steps": one, "max": 3}, {"obj": 0, "call": "get_output", "full": True},
+                          {"obj": 0, "call": "finalize"},
+                          {"obj": 1, "call": "setup", "script": 1}, {"obj": 1, "call": "schedule", "steps": one, "max": 3}, {"obj": 1, "call": "get_output", "full": True},
+                          {"obj": 1, "call": "finalize"}]
             elif kind == "outsys_resim":
                 # the caller modifies the trajectory object it was given (its .system, in place), then re-runs its .script
                 calls += [{"obj": 0, "call": "simulate", "script": 0},
@@ -402,6 +435,12 @@ def run(ctx):
             if outs[0]["hash"] != e["ref"]["hash"]:
                 ctx.violation("bitwise:simulate", "trajectory of simulate_script differs bitwise from the reference", case, impl=outs[0]["hash"], expected=e["ref"]["hash"])
             continue
+        if kind == "units_reuse":
+            if outs[-1]["hash"] != outs[-2]["hash"]:
+                ctx.violation("bitwise:engine-reused-other-units", "an engine object that ran the script before runs the same network under another script units system: "
+                              "the trajectory differs bitwise from the one a fresh engine object gives for that second script", case,
+                              impl={"hash": outs[-2]["hash"], "first": outs[-2]["data"][:6]}, expected={"hash": outs[-1]["hash"], "first": outs[-1]["data"][:6]})
+            continue
         if kind == "outsys_resim":
             if outs[-1]["hash"] != outs[0]["hash"]:
                 ctx.violation("stored-script:shares-system", "after the caller modified trajectory.system in place, re-running trajectory.script does not reproduce the trajectory "
@@ -437,7 +476,7 @@ def run(ctx):
         # ---- correspondence: the model replays the schedule
         if kind in ("schedule", "reused", "after_others", "twice"):
             srec = [x for c, x in zip(j["calls"], r["results"]) if c["call"] == "schedule"][-1]["ret"]
-            if srec["ncalls"] <= 50:
+            if srec["ncalls"] <= 50 and not e.get("subnormal"):
                 T = e["ref"]["T"]
                 N = len(e["ref"]["U"])
                 stop = None
@@ -508,6 +547,8 @@ def replay(ctx, rec):
         return False, detail
     if str(job.get("kind", "")).startswith("persist:"):
         return (len(outs) >= 2 and outs[-1]["hash"] == outs[0]["hash"]), detail
+    if job.get("kind") == "units_reuse":
+        return (len(outs) >= 2 and outs[-1]["hash"] == outs[-2]["hash"]), detail
     if job.get("kind") == "outsys_resim":
         return (len(outs) >= 2 and outs[-1]["hash"] == outs[0]["hash"]), detail
     if job.get("kind") == "bigN":
